@@ -53,6 +53,24 @@ CLAIMED.update({
     ref="DESIGN.md §4 C20"),
 })
 
+CLAIMED.update({
+  "C11": dict(
+    text="Structural clauses of the feed property, decided statically: a module-wide nil-flow analysis shows that no pointer that may be nil is converted into a pub.Container / pub.Tangible / Any interface at any point where the interface escapes (returned, stored, passed on), using branch facts, value+error producer soundness and an assume-guarantee invariant for dynamically dispatched receivers — so an exhausted feed ends with a real nil; NewSplicer's type switch is compared with the set of dynamic types that can reach FetchUserInput's result in the value-flow graph; an effects analysis shows Splicer.Harvest never writes through its receiver. The merge order / exactly-once clauses are NOT claimed.",
+    note="Not decided (stated in DESIGN.md and in the evidence): newest-first merge order, exactly-once, tie-breaking, idempotence as values. Fan-out race freedom is decided under C08.R5.",
+    technique="static nil-flow (typed-nil) analysis with branch facts, dynamic-type set vs. type-switch table agreement, write-set analysis",
+    ref="DESIGN.md §4 C11"),
+  "C12": dict(
+    text="Structural clauses of link numbering, decided statically: for every label call (style.Link / LinkBlock) in the three markup renderers the printed number is shown to be len(list) taken after the label's own append with no intervening call that can (transitively) append to the list, and every append to have exactly one label; attachment labels and SelectLink's index expressions are normalised to linear forms and composed to the identity; text and link list are shown to come from one GetMarkup call; every index in the SelectLink implementations is proven within bounds from the branch facts by a small linear-inequality prover; Markdown forwards the HTML link list. Survival of superscripts through wrapping is NOT claimed.",
+    note="Not decided: that rendered superscripts survive wrapping at every width; width-independence of link order (string values).",
+    technique="static ordering (append-before-label with no intervening appender), linear-form inverse agreement, guard-dominates-index with linear facts",
+    ref="DESIGN.md §4 C12"),
+  "C15": dict(
+    text="Structural clauses, decided statically: in each of the three markup implementations the text returned by the function Render delegates to is shown (def-use) to be the trimmed result of ansi.Wrap/DumbWrap with exactly the requested width (sibling cross-check); Render is shown to return the cached text only on the cachedWidth == width edge and otherwise to store the fresh rendering together with the width it was rendered at; constructors initialise the pair from one rendering; nothing else writes it; an effects analysis shows the render functions write nothing but their own allocations and read no mutable package state, so the text is a function of content and width. The numeric width bound itself is NOT claimed (it rests on ansi.Wrap, C13).",
+    note="Not decided: that ansi.Wrap/DumbWrap honour their width (C13, not applicable); contents of the rendering.",
+    technique="static def-use must-pass-through (final wrap), cache-pairing typestate, write-set (purity) analysis",
+    ref="DESIGN.md §4 C15"),
+})
+
 NOT_APPLICABLE = {
   "C13": "content preservation / line-length bounds of Wrap, DumbWrap, Pad, Indent, Snip are relations between input and output string values for all strings and widths; no sound static argument over the code's shape decides them (DESIGN.md §5)",
   "C14": "per-character attribute sets after arbitrary nesting and layout are string values; the structural facts available (single SGR emitter) are not necessary conditions of this property (DESIGN.md §5)",
